@@ -103,7 +103,7 @@ def run(R, tier):
         if structured:
             x = rng.choice(pool[9:] or pool); y = rng.choice(pool[9:] or pool)
         c = rng.choice(ints)
-        op = rng.choice(['add', 'sub', 'mul', 'mul', 'neg', 'addz', 'mulz', 'eq', 'eqz', 'bool', 'pow', 'cmp'])
+        op = rng.choice(['add', 'sub', 'mul', 'mul', 'neg', 'addz', 'mulz', 'eq', 'eqz', 'bool', 'pow', 'cmp', 'pdiv'])
         if it < 12:
             # powers of single monomials with several distinct variables (deterministic part): (3xy)^2, (x y y z)^3, ...
             x = P([[rng.choice((2, 3, -1))] + sorted(rng.choice(NAMES) for _ in range(2 + it % 3))]) + P(0)
@@ -116,6 +116,15 @@ def run(R, tier):
         elif op == 'sub': r = x - y; chk('poly_eqb (psub %s %s) %s' % (cp(x), cp(y), cp(r)), meta); oracle(op, r, sp(x) - sp(y), (x, y))
         elif op == 'mul': r = x * y; chk('poly_eqb (pmul %s %s) %s' % (cp(x), cp(y), cp(r)), meta); oracle(op, r, sp(x) * sp(y), (x, y))
         elif op == 'neg': r = -x; chk('poly_eqb (pneg %s) %s' % (cp(x), cp(r)), meta); oracle(op, r, -sp(x), (x,))
+        elif op == 'pdiv':
+            # Polynomial / Polynomial is the quotient (a RationalPolynomial); Polynomial / +-1, +-2 a Polynomial (direct oracle, no model case)
+            if y.args and len(x.args) <= 3 and len(y.args) <= 3 and not is_zero(sp(y)):     # (small operands: sympy's simplification of quotients is slow)
+                q_ = x / y
+                oracle(op, q_, sp(x) / sp(y), (x, y))
+            cdiv = rng.choice((1, -1, 2, -2))
+            if len(x.args) <= 4:
+                q2 = x / cdiv
+                oracle(op, q2, sp(x) / cdiv, (x, cdiv))
         elif op == 'addz': r = rng.choice([x + c, c + x]); chk('poly_eqb (padd_Z %s %s) %s' % (cp(x), kv.Z(c), cp(r)), meta); oracle(op, r, sp(x) + c, (x, c))
         elif op == 'mulz': r = rng.choice([x * c, c * x]); chk('poly_eqb (pmul_Z %s %s) %s' % (cp(x), kv.Z(c), cp(r)), meta); oracle(op, r, sp(x) * c, (x, c))
         elif op == 'eq':
